@@ -15,7 +15,9 @@ core Lean only.  The model follows the C++ control flow function by function:
   checkAndContinue + the progress loops, seen from one neighbour:
                            `sendAll` (every message one send tracker produces, in order) and
                            `recvLoop`/`recvAll` (what one receive tracker does with the FIFO stream of messages of its
-                           peer: unpack, skip, re-post), plus the small-step machine `Pair` used for the schedule theorem.
+                           peer: unpack, skip, re-post), plus the small-step machine `Pair` (actions deliver / sendDone /
+                           recvDone) and its free product over all neighbour relations (`sysStep`, `sysExec`) used for
+                           the schedule theorems.
 
 Representation: a tracker keeps the *not yet visited* tails `interface_[index_..]` and `sizes_[index_..]` in `iface` and
 `sizes` and counts the visited entries in `index` (a zipper for the C++ index into two arrays).  `hasSizes` stands for
